@@ -2,6 +2,8 @@
    Ops: sliding_tile_puzzle.{step, state, judge, instance, walk} -/
 import JumanjiModel.Bridge.Json
 import JumanjiModel.Env.SlidingTilePuzzle.Model
+import JumanjiModel.Env.SlidingTilePuzzle.Bounds
+import JumanjiModel.Bridge.PuzzleBounds
 open Lean Jb
 
 namespace Jb.SlidingTilePuzzle
@@ -116,8 +118,14 @@ def opWalk : Op := fun j => do
               ("valid_draws", jBool (validDraws cfg.n (startBoard cfg.n) ds)),
               ("goal", jIntGrid (goal cfg.n)), ("solved_puzzle", jIntGrid (solvedPuzzle cfg.n))])
 
+/-- C01 bounds op: {"cfg"} → the proved interval of every observation leaf -/
+def opBounds : Op := fun j => do
+  let cfg ← getCfg j
+  pure (jBoundsTable (obsBounds cfg))
+
 def ops : List (String × Op) :=
   [("sliding_tile_puzzle.step", opStep), ("sliding_tile_puzzle.state", opState),
    ("sliding_tile_puzzle.judge", opJudge), ("sliding_tile_puzzle.instance", opInstance),
-   ("sliding_tile_puzzle.walk", opWalk)]
+   ("sliding_tile_puzzle.walk", opWalk),
+   ("sliding_tile_puzzle.bounds", opBounds)]
 end Jb.SlidingTilePuzzle
